@@ -132,7 +132,7 @@ func workload(c *Case, obs eventbus.Observability, ctxCheck func(ctx context.Con
 		}
 		if h.Panic == "always" || (h.Panic == "odd" && id%2 != 0) {
 			tr.panics.Add(1)
-			panic(fmt.Sprintf("boom %d/%d", hi, id))
+			panic(panicValue(hi, id))
 		}
 	}
 	for hi, h := range c.Handlers {
@@ -450,4 +450,28 @@ func classify(c *Case, tr *truth, o *vkit.Outcome) {
 	if tr.appendFails > 0 {
 		o.Class("failed_append")
 	}
+}
+
+type panicCode int
+
+type panicInfo struct{ H, ID int }
+
+// panicValue: handlers panic with values of many shapes - whatever the value,
+// a panic is a failed invocation.
+func panicValue(hi, id int) any {
+	switch (hi + id) % 7 {
+	case 0:
+		return fmt.Sprintf("boom %d/%d", hi, id)
+	case 1:
+		return fmt.Errorf("boom %d/%d", hi, id)
+	case 2:
+		return 42 + id
+	case 3:
+		return panicCode(id)
+	case 4:
+		return panicInfo{hi, id}
+	case 5:
+		return &panicInfo{hi, id}
+	}
+	return []byte("boom")
 }
